@@ -10,7 +10,7 @@ import (
 	"verifharness/internal/opsim"
 )
 
-var profile = opsim.Profile{Name: "c03", MaxHooks: 4, Steps: 28, PFail: 20, PHold: 45, V0: true}
+var profile = opsim.Profile{Name: "c03", MaxHooks: 4, Steps: 28, PFail: 20, PHold: 45, V0: true, PWait: 30}
 
 func init() { opsim.RegisterProfile(profile) }
 
